@@ -104,7 +104,7 @@ def classify(obs, d):
     if obs["o"] not in ("ok", "reject"):
         return "crash"
     if d["o"] == "reject":
-        return "accepted-invalid-" + d.get("why", "")
+        return "accepted-invalid-" + d.get("why", "").split("-")[0]
     if obs["o"] == "reject":
         return "rejected-valid"
     if d["o"] == "weak":
@@ -116,15 +116,64 @@ def classify(obs, d):
 
 def run_single(obj, case):
     rc, out, err = vlib.cproc(obj, render(case, 0), case["targ"])
+    return _single_result(case, rc, out, err)
+
+
+def _single_result(case, rc, out, err):
     if rc == 0:
         try:
-            mod = ilparse.parse(out)
-            return project(case, 0, ilparse.data_by_name(mod))
+            return project(case, 0, ilparse.data_by_name(ilparse.parse(out)))
         except (ilparse.ILSyntaxError, KeyError) as ex:
             return {"o": "malformed-output", "detail": str(ex)[:200]}
     if rc == 1 and "error:" in err:
-        return {"o": "reject", "diag": err.strip().splitlines()[0][:160] if err.strip() else ""}
+        return {"o": "reject", "diag": err.strip().splitlines()[0][:160]}
     return {"o": "crash", "rc": rc, "stderr": err.strip()[-200:]}
+
+
+_bulk_seq = [0]
+
+
+def run_singles_bulk(ctx, obj, cases, shards=16):
+    """One cproc-qbe process per case (a rejected case ends the compilation), driven by shell loops: spawning tens of
+    thousands of processes from Python threads is several times slower.  Same binary, same stdin protocol as vlib.cproc."""
+    _bulk_seq[0] += 1
+    d = ctx.path("singles%d" % _bulk_seq[0])
+    os.makedirs(d)
+    for k, c in enumerate(cases):
+        with open(os.path.join(d, "%d.c" % k), "wb") as f:
+            f.write(render(c, 0))
+    lists = [[] for _ in range(shards)]
+    for k, c in enumerate(cases):
+        lists[k % shards].append("%d %s\n" % (k, c["targ"]))
+    script = ('cd "$1" || exit 9\nwhile read k t; do "$2" -t "$t" < $k.c > $k.out 2> $k.err; echo $? > $k.rc; done < "$3"\n')
+    spath = os.path.join(d, "loop.sh")
+    with open(spath, "w") as f:
+        f.write(script)
+
+    def shard(i):
+        lp = os.path.join(d, "list%d" % i)
+        with open(lp, "w") as f:
+            f.write("".join(lists[i]))
+        env = dict(os.environ)
+        env.pop("CPROC_VERIF_TRACE", None)
+        env.pop("CPROC_VERIF_TOKDUMP", None)
+        vlib.run(["sh", spath, d, os.path.join(obj, "cproc-qbe"), lp], timeout=900, env=env)
+    vlib.pmap(shard, range(shards), workers=shards)
+    res = []
+    for k, c in enumerate(cases):
+        try:
+            rc = int(open(os.path.join(d, "%d.rc" % k)).read())
+            out = open(os.path.join(d, "%d.out" % k), "rb").read().decode("utf-8", "surrogateescape")
+            err = open(os.path.join(d, "%d.err" % k), "rb").read().decode("utf-8", "replace")
+        except (OSError, ValueError):
+            res.append(run_single(obj, c))          # shard was cut short (hang): observe this one with a timeout
+            continue
+        if rc >= 128:
+            rc = -(rc - 128)
+        res.append(_single_result(c, rc, out, err))
+    import shutil
+    shutil.rmtree(d, ignore_errors=True)
+    return res
 
 
 def run_batch(obj, targ, batch):
@@ -140,28 +189,24 @@ def run_batch(obj, targ, batch):
     return [run_single(obj, c) for c in batch]
 
 
-def observe_all(obj, cases, batch_size=120):
+def observe_all(ctx, obj, cases, batch_size=120):
     """Observed projection for every case (same order)."""
     obs = [None] * len(cases)
-    jobs = []
+    jobs, singles = [], []
     by_t = {}
     for i, c in enumerate(cases):
         if c["decl"]["o"] == "ok" and c["impl"]["o"] == "ok":
             by_t.setdefault(c["targ"], []).append(i)
         else:
-            jobs.append(("single", [i]))
+            singles.append(i)
     for t, idx in by_t.items():
         for a in range(0, len(idx), batch_size):
             jobs.append((t, idx[a:a + batch_size]))
-
-    def do(job):
-        kind, idx = job
-        if kind == "single":
-            return [run_single(obj, cases[idx[0]])]
-        return run_batch(obj, kind, [cases[i] for i in idx])
-    for (kind, idx), res in zip(jobs, vlib.pmap(do, jobs, workers=16)):
+    for (t, idx), res in zip(jobs, vlib.pmap(lambda j: run_batch(obj, j[0], [cases[i] for i in j[1]]), jobs, workers=16)):
         for i, o in zip(idx, res):
             obs[i] = o
+    for i, o in zip(singles, run_singles_bulk(ctx, obj, [cases[i] for i in singles])):
+        obs[i] = o
     return obs
 
 
@@ -202,6 +247,219 @@ def judge(ctx, cases, obs, stats):
             ctx.violation(key, what, case_view(c, o))
 
 
+# --------------------------------------------------------------------------------------------
+# Audit of the declarative side against gcc (host) and clang --target.  Never a VIOLATION.
+CLANG_T = {"x86_64-sysv": "x86_64-linux-gnu", "aarch64": "aarch64-linux-gnu", "riscv64": "riscv64-linux-gnu"}
+GEN_STR = ", ".join("%s*:%d" % (c, i + 1) for i, c in enumerate(PROBE_C)).encode()
+GEN_CHR = ", ".join("%s:%d" % (c, i + 1) for i, c in enumerate(PROBE_C)).encode()
+
+
+def _signed(bs):
+    return int.from_bytes(bytes(bs), "little", signed=True)
+
+
+def _tyids(d):
+    return [PROBE.index(t) + 1 for t in d["tys"]]
+
+
+def gcc_dump(ctx, cases, tag):
+    """Compile+run one host program printing size/type/bytes of every (ok) case. Returns {k: (g, bytes)} or None if gcc rejects."""
+    signed = CharSignedFlag(cases[0]["targ"])
+    src = [b"#include <stdio.h>\n"]
+    for k, c in enumerate(cases):
+        lit = lit_bytes(c)
+        if c["ctx"] == "str":
+            t = CTYPE[c["decl"]["tys"][0]].encode()
+            src.append(b"static const %s s%d[] = %s;\n" % (t, k, lit))
+        else:
+            src.append(b"static const long long s%d[1] = { %s };\n" % (k, lit))
+    src.append(b"static const struct { const void *p; unsigned long n; int g; } tab[] = {\n")
+    for k, c in enumerate(cases):
+        gen = GEN_STR if c["ctx"] == "str" else GEN_CHR
+        src.append(b"{ s%d, sizeof s%d, _Generic(%s, %s, default:0) },\n" % (k, k, lit_bytes(c), gen))
+    src.append(b"};\nint main(void) { for (unsigned i = 0; i < sizeof tab / sizeof tab[0]; ++i) { printf(\"%u %d \", i, tab[i].g);"
+               b" for (unsigned long j = 0; j < tab[i].n; ++j) printf(\"%02x\", ((const unsigned char *)tab[i].p)[j]); printf(\"\\n\"); } return 0; }\n")
+    cpath, exe = ctx.path("aud_%s.c" % tag), ctx.path("aud_%s" % tag)
+    with open(cpath, "wb") as f:
+        f.write(b"".join(src))
+    rc, out, err = vlib.run(["gcc", "-std=c2x", "-pedantic-errors", "-w", "-O0", signed, "-o", exe, cpath], timeout=600)
+    if rc != 0:
+        return None, err.decode("latin-1")
+    rc, out, err = vlib.run([exe], timeout=120)
+    if rc != 0:
+        raise vlib.MachineryError("gcc audit program failed rc=%s" % rc)
+    res = {}
+    for ln in out.decode().splitlines():
+        k, g, hx = (ln.split(" ") + [""])[:3]
+        res[int(k)] = (int(g), list(bytes.fromhex(hx)))
+    return res, ""
+
+
+def CharSignedFlag(targ):
+    # which gcc switch reproduces the target's plain-char signedness (read from the spec's own verdicts, see audit_targets)
+    return "-fsigned-char" if _CHAR_SIGNED[targ] else "-funsigned-char"
+
+
+_CHAR_SIGNED = {}
+_WCHAR_SIGNED = {}
+
+
+def audit_targets(ctx, cases):
+    """Target facts as the *spec* states them, recovered from its verdicts ('\xff' and L'\xffffffff'), audited with clang."""
+    for c in cases:
+        if c["ctx"] == "chr" and c["decl"]["o"] == "ok":
+            body, pfx = bytes(c["parts"][0]["body"]), c["parts"][0]["pfx"]
+            if pfx == "" and body == b"\\xFF":
+                _CHAR_SIGNED[c["targ"]] = _signed(c["decl"]["bytes"]) < 0
+            if pfx == "L" and body == b"\\xFFFFFFFF":
+                _WCHAR_SIGNED[c["targ"]] = _signed(c["decl"]["bytes"]) < 0
+    for t in vlib.TARGETS:
+        if t not in _CHAR_SIGNED or t not in _WCHAR_SIGNED:
+            raise vlib.MachineryError("exhaustive families lack the signedness probes for %s" % t)
+        src = ("_Static_assert(((char)-1 < 0) == %d, \"char\");\n_Static_assert(((__WCHAR_TYPE__)-1 < 0) == %d, \"wchar\");\n"
+               "_Static_assert(sizeof(__WCHAR_TYPE__) == 4 && sizeof(__CHAR16_TYPE__) == 2 && sizeof(__CHAR32_TYPE__) == 4, \"sizes\");\n"
+               "_Static_assert(_Generic((__CHAR16_TYPE__)0, unsigned short:1, default:0) && _Generic((__CHAR32_TYPE__)0, unsigned int:1, default:0), \"types\");\n"
+               % (_CHAR_SIGNED[t], _WCHAR_SIGNED[t]))
+        rc, out, err = vlib.run(["clang", "--target=" + CLANG_T[t], "-std=c11", "-fsyntax-only", "-x", "c", "-"], stdin=src.encode())
+        if rc != 0:
+            raise vlib.MachineryError("SPEC-AUDIT: Lit.tla target facts for %s disagree with clang: %s" % (t, err.decode()[:400]))
+
+
+def audit_ok_gcc(ctx, cases):
+    groups = {}
+    seen = set()
+    for c in cases:
+        if c["decl"]["o"] != "ok":
+            continue
+        rp = result_prefix(c)
+        if rp == "L" and not _WCHAR_SIGNED[c["targ"]]:
+            continue                                   # host gcc's wchar_t is signed: left to clang --target
+        flag = CharSignedFlag(c["targ"])
+        key = (flag, c["ctx"], lit_bytes(c))
+        if key in seen:
+            continue
+        seen.add(key)
+        groups.setdefault(flag, []).append(c)
+    jobs = []
+    for flag, cs in groups.items():
+        for a in range(0, len(cs), 2500):
+            jobs.append(cs[a:a + 2500])
+    n = 0
+
+    def do(args):
+        i, chunk = args
+        return gcc_dump(ctx, chunk, "g%d" % i)
+    for chunk, (res, err) in zip(jobs, vlib.pmap(do, list(enumerate(jobs)), workers=8)):
+        if res is None:
+            raise vlib.MachineryError("SPEC-AUDIT: gcc rejects a literal Lit.tla accepts:\n" + err[:1500])
+        for k, c in enumerate(chunk):
+            g, bs = res[k]
+            d = c["decl"]
+            if g not in _tyids(d) or bs != d["bytes"]:
+                raise vlib.MachineryError("SPEC-AUDIT: gcc disagrees with Lit.tla on %r (%s): gcc type#%d bytes %s, spec %s" % (
+                    lit_bytes(c), c["targ"], g, bs, json.dumps(d)))
+            n += 1
+    return n
+
+
+def audit_ok_clang(ctx, cases):
+    by_t = {}
+    for c in cases:
+        if c["decl"]["o"] != "ok":
+            continue
+        if c["ctx"] == "chr" and c["parts"][0]["pfx"] == "u8":
+            continue                                   # clang 14 has no u8 character constants
+        by_t.setdefault(c["targ"], []).append(c)
+    jobs = []
+    for t, cs in by_t.items():
+        for a in range(0, len(cs), 4000):
+            jobs.append((t, cs[a:a + 4000]))
+
+    def do(job):
+        t, cs = job
+        src = []
+        for k, c in enumerate(cs):
+            d = c["decl"]
+            lit = lit_bytes(c)
+            ids = b" || ".join(b"_Generic(%s, %s, default:0) == %d" % (lit, GEN_STR if c["ctx"] == "str" else GEN_CHR, i) for i in _tyids(d))
+            if c["ctx"] == "str":
+                src.append(b"_Static_assert(sizeof(%s) == %d && (%s), \"case%d\");\n" % (lit, d["n"] * d["size"], ids, k))
+            else:
+                src.append(b"_Static_assert((long long)(%s) == %dLL && (%s), \"case%d\");\n" % (lit, _signed(d["bytes"]), ids, k))
+        rc, out, err = vlib.run(["clang", "--target=" + CLANG_T[t], "-std=c2x", "-fsyntax-only", "-w", "-ferror-limit=20", "-x", "c", "-"],
+                                stdin=b"".join(src), timeout=600)
+        return rc, err.decode("latin-1")
+    n = 0
+    for (t, cs), (rc, err) in zip(jobs, vlib.pmap(do, jobs, workers=8)):
+        if rc != 0:
+            m = re.search(r'"case(\d+)"', err)
+            bad = cs[int(m.group(1))] if m else None
+            raise vlib.MachineryError("SPEC-AUDIT: clang --target=%s disagrees with Lit.tla on %r: spec %s\n%s" % (
+                CLANG_T[t], lit_bytes(bad) if bad else None, json.dumps(bad["decl"]) if bad else None, err[:800]))
+        n += len(cs)
+    return n
+
+
+# classes of Decl-rejected literals on which a reference compiler is *not* an authority, with the reason
+def audit_exception(c, who):
+    why = c["decl"].get("why")
+    rp = result_prefix(c)
+    if why == "utf8-beyond" and who == "gcc":
+        return "gcc's reader still implements the 31-bit UTF-8 of RFC 2279 and accepts values above U+10FFFF"
+    if why in ("utf8", "utf8-beyond") and (rp in ("", "u8") or who == "clang"):
+        # neither C11 nor gcc/clang constrain malformed UTF-8 in narrow literals (bytes are copied; clang only warns, also in
+        # wide strings where it substitutes); the *property* demands rejection.  gcc does reject it in u/U/L literals.
+        return "malformed UTF-8 is passed through by the reference compiler"
+    if c["ctx"] == "chr" and c["parts"][0]["pfx"] == "u8" and who == "clang":
+        return "clang 14 has no u8 character constants"
+    return None
+
+
+def audit_reject(ctx, cases, limit):
+    pool, seen = [], set()
+    for c in cases:
+        if c["decl"]["o"] != "reject":
+            continue
+        key = (c["ctx"], lit_bytes(c))
+        if key in seen:
+            continue
+        seen.add(key)
+        pool.append(c)
+    if len(pool) > limit:
+        # stratified: keep every (why, ctx, prefix) class represented
+        by = {}
+        for c in pool:
+            by.setdefault((c["decl"]["why"], c["ctx"], result_prefix(c)), []).append(c)
+        pick = []
+        per = max(1, limit // len(by))
+        for k in sorted(by):
+            ctx.rng.shuffle(by[k])
+            pick += by[k][:per]
+        pool = pick
+    jobs = [(c, who) for c in pool for who in ("gcc", "clang") if not audit_exception(c, who)]
+
+    def do(job):
+        c, who = job
+        src = render(c, 0)
+        if who == "gcc":
+            cmd = ["gcc", "-std=c2x", "-pedantic-errors", "-fsyntax-only", "-x", "c", "-"]
+        else:
+            cmd = ["clang", "--target=" + CLANG_T[c["targ"]], "-std=c2x", "-pedantic-errors", "-fsyntax-only", "-x", "c", "-"]
+        rc, out, err = vlib.run(cmd, stdin=src, timeout=60)
+        return rc
+    for (c, who), rc in zip(jobs, vlib.pmap(do, jobs, workers=16)):
+        if rc == 0:
+            raise vlib.MachineryError("SPEC-AUDIT: %s accepts %r which Lit.tla rejects (%s)" % (who, lit_bytes(c), c["decl"]["why"]))
+    return len(jobs)
+
+
+def audit(ctx, cases, reject_limit):
+    a = ctx.cov.setdefault("audit", {"gcc_ok_cases": 0, "clang_ok_cases": 0, "reject_runs": 0})
+    a["gcc_ok_cases"] += audit_ok_gcc(ctx, cases)
+    a["clang_ok_cases"] += audit_ok_clang(ctx, cases)
+    a["reject_runs"] += audit_reject(ctx, cases, reject_limit)
+
+
 def load_cases(r):
     cases = [json.loads(v) for v in r.vcases]
     for c in cases:
@@ -226,13 +484,39 @@ def run(ctx):
     cases = load_cases(r)
     if len(cases) != r.distinct - 90:
         raise vlib.MachineryError("expected one VCASE per case state: %d vs %d" % (len(cases), r.distinct - 90))
-    obs = observe_all(obj, cases)
+    audit_targets(ctx, cases)
+    audit(ctx, cases, 600 if ctx.quick else 6000)
+    obs = observe_all(ctx, obj, cases)
     judge(ctx, cases, obs, stats)
     ctx.validated(len(cases))
     for c, o in list(zip(cases, obs))[::len(cases) // 5 + 1]:
         ctx.sample({"source": lit_bytes(c).decode("latin-1"), "targ": c["targ"], "expected": c["decl"], "observed": o})
-    ctx.cov["verdicts"] = stats
     ctx.cov["exhaustive"] = True
+
+    # random literals: TLC -simulate drives Lit.tla's generator (Mode = "sim").  Simulation workers of one TLC share the
+    # random stream, so parallelism comes from several single-worker TLC processes with different seeds.
+    procs, traces = (2, 10) if ctx.quick else (16, 60)
+    seeds = [(ctx.seed * 1000 + i) & 0x7FFFFFFF for i in range(procs)]
+    runs = vlib.pmap(lambda sd: ctx.tlc("Lit", "MC_Lit_sim.cfg", workers=1, simulate=traces, depth=51, seed=sd, timeout=1200), seeds, workers=8)
+    rnd, seen = [], set()
+    for r2 in runs:
+        if not r2.ok:
+            raise vlib.MachineryError("Lit.tla simulation rejected its own model (rc=%d):\n%s" % (r2.rc, r2.out[-3000:]))
+        for c in load_cases(r2):
+            key = (c["ctx"], c["targ"], lit_bytes(c))
+            if key not in seen:
+                seen.add(key)
+                rnd.append(c)
+    if len(rnd) < 1000:
+        raise vlib.MachineryError("random generator produced only %d distinct literals" % len(rnd))
+    audit(ctx, rnd, 300 if ctx.quick else 3000)
+    obs2 = observe_all(ctx, obj, rnd)
+    judge(ctx, rnd, obs2, stats)
+    ctx.validated(len(rnd))
+    ctx.cov["random_literals"] = len(rnd)
+    for c, o in list(zip(rnd, obs2))[::len(rnd) // 2 + 1]:
+        ctx.sample({"source": lit_bytes(c).decode("latin-1"), "targ": c["targ"], "expected": c["decl"], "observed": o})
+    ctx.cov["verdicts"] = stats
 
 
 def replay(ctx, path):
